@@ -400,10 +400,13 @@ package ast
 // here (they are about the generated parser, not about this code) and listed in the evidence.
 // ---------------------------------------------------------------------------
 
+// a STRING token becomes a string constant whose value is what the literal denotes (C11: the same statement as
+// ParseZqlString's, carried through the call site)
 //@ func (*ToBoltListener).VisitTerminal
-//@   props C10
+//@   props C10 C11
 //@   assume node != nil
 //@   modifies *
+//@   ensures[string-literal-denotes] old(bl.err) == nil && bl.err == nil && tokType(tnSym(node)) == zitiql.ZitiQlLexerSTRING ==> bl.currentStack == old(bl.currentStack) && len(bl.currentStack.values) == old(len(bl.currentStack.values)) + 1 && istype(bl.currentStack.values[old(len(bl.currentStack.values))], *StringConstNode) && forallStr(s, unquote2(unquote1(tnText(node))) == escFrom(s, 0) ==> as(bl.currentStack.values[old(len(bl.currentStack.values))], *StringConstNode).value == s, escFrom(s, 0))
 //@ func (*ToBoltListener).ExitStringArray
 //@   props C10
 //@   assume forall(i, 0 <= i && i < len(bl.currentStack.values) ==> istype(bl.currentStack.values[i], StringNode))
